@@ -535,6 +535,12 @@ func (d *Decoder) LoadParityData() error {
 				return nil, errors.New("non-recovery set mismatch")
 			}
 
+			for _, packet := range parityFile.recoveryPackets {
+				if len(packet.data) != d.sliceByteCount {
+					return nil, errors.New("recovery packet byte count mismatch")
+				}
+			}
+
 			return &parityFile, nil
 		}()
 		d.delegate.OnParityFileLoad(i+1, match, err)
